@@ -113,7 +113,7 @@ def monitor(lines, out):
         for name in ("nds", "fast", "dc"):
             if ints(f.get(name, "")) != want:
                 msgs.append("%s ranks %s, definition gives %s" % (name, f.get(name), ",".join(map(str, want))))
-    elif q == "H":
+    elif q in ("H", "G"):
         want = spec_hv(P, ref)
         for name in ("disp", "a2", "a3", "hoy", "wfg"):
             v = f.get(name, "-")
@@ -216,7 +216,7 @@ def compare(a, b, lines_holder=[None]):
             if fx["a3"] != "-" and float(fy["a3"]) != int(fx["a3"]): return False
             if fx["wfg"] != "-" and fy.get("wfg", "-") != "-" and float(fy["wfg"]) != int(fx["wfg"]): return False
             if fx["lim"] != fy.get("lim", "?"): return False      # limitSet(points[1..], points[0]) as a sorted multiset
-            if fx.get("disp", "-") != "-" and float(fy["disp"]) != int(fx["disp"]): return False   # front end model
+            if fx.get("disp", "-") != "-" and fy.get("disp", "-") != "-" and float(fy["disp"]) != int(fx["disp"]): return False   # front end model
         elif kind == "K":
             if "empty" in x or "empty" in y:
                 if x != y: return False
@@ -333,10 +333,27 @@ def gen_k3(rng, big, q="K"):
     ref = [m + rng.choice([0, 0, 1, 1, 2]) for m in mx]      # boundary points in every objective are frequent
     return case_lines(q, d, rng.randint(1, len(P)), ref, P)
 
+def gen_shifted(rng, big):
+    """any of the other cases translated by a negative offset (negative objective values; query G instead of H so that
+    the harness does not enter HypervolumeCalculatorMDHOY, which is exercised with negative values in its own stream)"""
+    while True:
+        c = gen_case(rng, big, rng.choice(["R", "H", "H", "K", "K3", "S", "D"]))
+        t = c[0].split(); q, d = t[1], int(t[2])
+        if q == "K" and d == 4: continue          # MD contributions in 4 objectives go through HOY
+        off = rng.choice([-1, -2, -3, -7])
+        out = []
+        for l in c:
+            u = l.split()
+            if u[0] == "C": out.append(" ".join(["C", "G" if q == "H" else q] + u[2:4] + [str(int(x) + off) for x in u[4:4 + d]]))
+            elif u[0] == "p": out.append("p " + " ".join(str(int(x) + off) for x in u[1:]))
+            else: out.append(l)
+        return out
+
 def gen_case(rng, big, kind=None):
-    kind = kind or rng.choice(["R", "R", "H", "H", "H", "K", "K", "S", "S", "D", "K3"])
+    kind = kind or rng.choice(["R", "R", "H", "H", "H", "K", "K", "S", "S", "D", "K3", "NEG"])
     if kind == "D": return gen_dc(rng, big)
     if kind == "K3": return gen_k3(rng, big)
+    if kind == "NEG": return gen_shifted(rng, big)
     d, R = pick_dR(rng, big)
     if kind == "R":
         n = rng.choice([1, 2, 3, 5, 8, 13, 20, 30, 40] + ([60, 80] if big else []))
@@ -401,7 +418,7 @@ def model_checks(ck, cases, model_out):
             if f["spec"] != f["dc"]: bad.append(("dc_nds model (divide-and-conquer sort) differs from rank_list", c, r))
             if f["spec"] != f["nds"]: bad.append(("nds_front model (sorting front end) differs from rank_list", c, r))
             if ints(f["spec"]) != spec_ranks(P): bad.append(("rank_list differs from the Python rank definition", c, r))
-        elif q == "H":
+        elif q in ("H", "G"):
             if int(f["spec"]) != spec_hv(P, ref): bad.append(("hv_spec differs from the Python slab HSO", c, r))
             if f["a2"] != "-" and f["a2"] != f["spec"]: bad.append(("hv2d model differs from hv_spec", c, r))
             if f["a3"] != "-":
@@ -450,7 +467,8 @@ def main():
                                     "modelled not verified: std::map of the DC sort's sweeps is an association list with unique keys (iteration order is not observable: a maximum is computed); std::nth_element / std::max_element in median() are 'the element of rank n/2' / 'the maximum of the lower half' of the sorted values",
                                     "modelled not verified: std::sort in createFront of the 2-D subset selection is libstdc++'s insertion sort (n <= 16; the selection vector is compared for n <= 16 only; the theorem covers every arrangement sorted by the first objective); double comparisons of intersection abscissae with the 1e-10 tolerance are exact rational comparisons on small integer coordinates",
                                     "modelled not verified: exp(sum(log(ref - p))) in HypervolumeContributionMD is the exact product of the edge lengths (compared at 1e-9); -inf (= -DBL_MAX) of the sentinels in HypervolumeContribution3D is any value below all coordinates; Box::upper.f3 there is dead data",
-                                    "not proved, differential test only: contribution front end, HOY (the hypervolume front end and MD contributions are proved for every dimension except 4), overloads without reference point"]
+                                    "modelled not verified: bestContributors (heap of k+1 slots, push_heap / pop_heap / sort_heap) of the 2-D contribution code is 'the k best entries in sorted order'; the order among equal contributions is left open by the code and by the theorems",
+                                    "not proved, differential test only: HOY (4 objectives; the hypervolume front end and the MD contributions are proved for every other dimension), subset selection without reference point"]
     ck.assumptions = ["integer objective values (products of at most 5 integers <= 13 are exact in double, comparison is equality; MD contributions use exp(sum(log)) and are compared at 1e-9 relative to the total hypervolume)",
                       "reference point weakly dominated by every point (ref_i >= max coordinate, mostly strictly)",
                       "contribution queries: mutually non-dominated sets with duplicates, 1 <= k <= n, overloads WITH reference point in the main stream; overloads without reference point in a separate stream",
@@ -471,7 +489,7 @@ def main():
         out = []
         for c in dcases:
             kind = c[0].split()[1]
-            for _ in range(150): out.append(gen_case(ck.rng, big, kind if kind != "N" else "K"))
+            for _ in range(150): out.append(gen_case(ck.rng, big, {"N": "K", "G": "NEG"}.get(kind, kind)))
         return out
     def keyfn(msg, case):
         q, d, k, ref, P, _ = parse_case(case)
@@ -527,7 +545,10 @@ def main():
             nontriv.add(" ".join(c))
     ck.cov["evaluations"] = len(cases) + len(noref_cases) - len([c for c in cases if c[0].split()[1] == "N"])
     ck.cov["distinct_nontrivial"] = len(nontriv)
-    ck.cov["rule"] = ("random integer point sets, 2-5 objectives, coordinates 0..R (R<=10 for 2-D .. R<=3 for 5-D) with duplicates, "
+    ck.cov["rule"] = ("random integer point sets, 2-6 objectives, coordinates 0..R (R<=10 for 2-D .. R<=3 for 5-D) with duplicates, "
+                      "a stream translated to negative coordinates (query G = H without HOY), streams aimed at the case splits of the DC sort "
+                      "(few distinct values, constant last objectives, chains, sizes around the front-end switch) and of the 3-D contribution sweep "
+                      "(equal coordinates between different points, duplicates, points on the reference boundary), "
                       "single-coordinate ties, collinear and dominated points; queries R (ranks: dispatcher, fast, DC; n<=40), "
                       "H (hypervolume: front end, 2D, 3D, HOY, WFG and WFG's limit set of the first point, each next to its extracted model; n<=40), K (smallest/largest-k contributions with reference, "
                       "dispatcher + 2D/3D + MD; n<=18), S (2-D subset selection: selection vector equal to the extracted model's, optimal vs brute force; n<=10), N (contributions without reference, "
@@ -538,7 +559,8 @@ def main():
     ck.notes["query_mix"] = kinds; ck.notes["objectives_mix"] = dims; ck.notes["model_internal_checks"] = stats
     ck.finish(explanation="dominance, rank definition (existence/uniqueness/consistent fronts), fast sort, hv_spec invariances, the 2-D sweep, the 3-D sweep, "
               "the WFG recursion, the 2-D contributions and the 2-D subset selection (upper envelope + dynamic programme) are proved (models run next to the code on every case); "
-              "everything else is an exact differential test against the proved spec functions")
+              "the divide-and-conquer sort and the sorting front end, the MD and 3-D contributions, the contribution front end and the overloads without reference point are proved too; "
+              "HOY (4 objectives) is an exact differential test against the proved spec functions")
 
 if __name__ == "__main__":
     main()
